@@ -107,6 +107,10 @@ def harness(args, timeout=3600, env_extra=None, check=True, stdin=None):
                 if where.startswith(pre):
                     where = where[len(pre):]
             raise LibraryDied(args[0], "panic at %s:%s: %s" % (where, line, msg.strip()[:160]), p.stderr[-1500:])
+        if p.returncode == 101:
+            # Rust's exit code for a panic of the main thread; the driver had silenced the panic message (it catches panics of
+            # single calls itself), so the location is not known
+            raise LibraryDied(args[0], "panic outside the calls the driver guards (message suppressed)", p.stderr[-1500:])
         raise ToolError("harness %s failed with rc=%d" % (args[0], p.returncode))
     return p
 
